@@ -5,6 +5,46 @@ from engine import ru, paths as pa, expr, flow as fl
 FR = "h3::proto::frame::"
 
 
+class Proxy:
+    """Forwards the obligations of another property's module whose rule id is selected, under this property's rule id."""
+
+    nested = True      # a module run through a proxy does not run other modules through proxies again
+
+    def __init__(self, ctx, select, as_rule):
+        self._ctx, self._sel, self._as = ctx, select, as_rule
+
+    def __getattr__(self, name):
+        return getattr(self._ctx, name)
+
+    def _on(self, rule):
+        return any(rule == s or rule.startswith(s) for s in self._sel)
+
+    def ok(self, rule, key, detail="", loc=None):
+        if self._on(rule):
+            self._ctx.ok(self._as, "[%s] %s" % (rule, key), detail, loc)
+
+    def violation(self, rule, fn, construct, msg, loc=None, path=None):
+        if self._on(rule):
+            self._ctx.violation(self._as, fn, "[%s] %s" % (rule, construct), msg, loc, path)
+
+    def check(self, cond, rule, fn, construct, msg, detail="", loc=None, path=None):
+        if self._on(rule):
+            self._ctx.check(cond, self._as, fn, "[%s] %s" % (rule, construct), msg, detail, loc, path)
+
+    def missing(self, rule, what):
+        if self._on(rule):
+            self._ctx.missing(self._as, what)
+
+    def unrecognised(self, rule, fn, what, msg):
+        if self._on(rule):
+            self._ctx.unrecognised(self._as, fn, "[%s] %s" % (rule, what), msg)
+
+    def floor(self, rule, what, n, least):
+        if self._on(rule):
+            self._ctx.floor(self._as, "[%s] %s" % (rule, what), n, least)
+
+
+
 def frame_decoder_iterations(ctx, rule):
     prog = ctx.prog
     fd = ru.need(ctx, rule, "h3::frame::FrameDecoder::decode")
